@@ -51,9 +51,11 @@ Definition implb (a b : bool) : bool := if a then b else true.
 (** ** end-to-end cases *)
 Record e2e_obs := {
   x_got : bool; x_status : Z; x_headers : headers; x_cl : option Z; x_body : string;
-  x_frame : bool; x_dec : option string;
+  x_frame : bool;
+  x_rest : list string; x_dec : option string;   (* the body with the codings its label names undone, as far as they are known *)
   x_bcount : Z; x_bmethod : string; x_btarget : string; x_bparsed : option (string * string);
-  x_bhost : string; x_bheaders : headers; x_bbody : string; x_bdec : option string
+  x_bhost : string; x_bheaders : headers; x_bbody : string;
+  x_brest : list string; x_bdec : option string
 }.
 
 Record e2e_case := {
@@ -65,6 +67,9 @@ Record e2e_case := {
   (* oracles computed by the harness with the real libraries *)
   e_gzip : list (string * string);
   e_gunzip : list (string * option string);
+  e_inflate : list (string * option string);          (* zlib ("deflate" coding) *)
+  e_req_peel : option (list string * string);         (* the client's body, known codings undone *)
+  e_resp_peel : option (list string * string);        (* the backend's body, known codings undone *)
   e_client : option (string * string);      (* the client's target parsed *)
   e_esc : string;                           (* its EscapedPath() *)
   e_out_dec : option string; e_out_esc : option string;
@@ -89,6 +94,31 @@ Definition case_fns (c : e2e_case) : fns :=
             | None => None
             end |}.
 
+(** the codings a message is labelled with, in the order they were applied *)
+Definition codings (h : headers) : list string :=
+  filter nonempty (map (fun t => lower (trim t)) (flat_map split_comma (h_values_exact CE h))).
+
+(** undo, from the outermost inwards, the codings that can be undone (gzip, x-gzip, deflate,
+    identity); stop at the first unknown one.  Result: the codings left (innermost first)
+    and the data; None when data does not decode as labelled *)
+Fixpoint peel_rev (gunz infl : string -> option string) (outer_first : list string) (data : string)
+  : option (list string * string) :=
+  match outer_first with
+  | [] => Some ([], data)
+  | t :: inner =>
+      if String.eqb t "gzip" || String.eqb t "x-gzip" then
+        match gunz data with Some d => peel_rev gunz infl inner d | None => None end
+      else if String.eqb t "deflate" then
+        match infl data with Some d => peel_rev gunz infl inner d | None => None end
+      else if String.eqb t "identity" then peel_rev gunz infl inner data
+      else Some (rev outer_first, data)
+  end.
+
+Definition peel (c : e2e_case) (h : headers) (body : string) : option (list string * string) :=
+  peel_rev (f_gunzip (case_fns c))
+           (fun b => match alookup b (e_inflate c) with Some r => r | None => None end)
+           (rev (codings h)) body.
+
 Definition case_creq (c : e2e_case) : creq :=
   {| cq_method := e_method c; cq_target := e_target c; cq_host := e_host c;
      cq_headers := mk_headers (e_hdrs c); cq_body := e_body c |}.
@@ -106,22 +136,25 @@ Definition obs_of_outcome (c : e2e_case) (o : outcome) : e2e_obs :=
     | None => x
     | Some r =>
         {| x_got := x_got x; x_status := x_status x; x_headers := x_headers x; x_cl := x_cl x; x_body := x_body x;
-           x_frame := x_frame x; x_dec := x_dec x;
+           x_frame := x_frame x; x_rest := x_rest x; x_dec := x_dec x;
            x_bcount := 1; x_bmethod := bq_method r; x_btarget := bq_target r;
            x_bparsed := f_parse_target f (bq_target r);
            x_bhost := bq_host r; x_bheaders := bq_headers r; x_bbody := bq_body r;
-           x_bdec := decode f (bq_headers r) (bq_body r) |}
+           x_brest := match peel c (bq_headers r) (bq_body r) with Some p => fst p | None => [] end;
+           x_bdec := option_map snd (peel c (bq_headers r) (bq_body r)) |}
     end in
   let empty := {| x_got := false; x_status := 0; x_headers := []; x_cl := None; x_body := EmptyString;
-                  x_frame := false; x_dec := None; x_bcount := 0; x_bmethod := EmptyString; x_btarget := EmptyString;
-                  x_bparsed := None; x_bhost := EmptyString; x_bheaders := []; x_bbody := EmptyString; x_bdec := None |} in
+                  x_frame := false; x_rest := []; x_dec := None; x_bcount := 0; x_bmethod := EmptyString; x_btarget := EmptyString;
+                  x_bparsed := None; x_bhost := EmptyString; x_bheaders := []; x_bbody := EmptyString; x_brest := []; x_bdec := None |} in
   match o with
   | NoResponse b => bpart b empty
   | Answered w b =>
       bpart b {| x_got := true; x_status := w_status w; x_headers := w_headers w; x_cl := w_cl w; x_body := w_body w;
-                 x_frame := w_frame_ok w; x_dec := decode f (w_headers w) (w_body w);
+                 x_frame := w_frame_ok w;
+                 x_rest := match peel c (w_headers w) (w_body w) with Some p => fst p | None => [] end;
+                 x_dec := option_map snd (peel c (w_headers w) (w_body w));
                  x_bcount := 0; x_bmethod := EmptyString; x_btarget := EmptyString; x_bparsed := None;
-                 x_bhost := EmptyString; x_bheaders := []; x_bbody := EmptyString; x_bdec := None |}
+                 x_bhost := EmptyString; x_bheaders := []; x_bbody := EmptyString; x_brest := []; x_bdec := None |}
   end.
 
 (** headers net/http's server may add to a response on its own *)
@@ -176,14 +209,14 @@ Definition prop_req (c : e2e_case) (x : e2e_obs) : bool :=
   let f := case_fns c in
   let cfg := e_cfg c in
   let ch := mk_headers (e_hdrs c) in
-  match e_client c, decode f ch (e_body c) with
-  | Some (path, query), Some content =>
+  match e_client c, e_req_peel c with
+  | Some (path, query), Some (rest, content) =>
       let ra := p_ra cfg in
-      let want_b := if a_on ra && nonempty (a_body ra) then a_body ra else content in
+      let '(want_rest, want_b) := if a_on ra && nonempty (a_body ra) then ([], a_body ra) else (rest, content) in
       (x_bcount x =? 1) &&
       String.eqb (x_bmethod x) (e_method c) &&
       opt_eqb pair_eqb (x_bparsed x) (Some (path, query)) &&
-      opt_eqb String.eqb (x_bdec x) (Some want_b) &&
+      opt_eqb String.eqb (x_bdec x) (Some want_b) && strs_eqb (x_brest x) want_rest &&
       implb (negb (a_on ra)) (String.eqb (x_bbody x) (e_body c)) &&
       forallb (fun k =>
                  if mem k ["Content-Length"; "Host"] then true
@@ -213,14 +246,17 @@ Definition prop_resp (cfg : pcfg) (ed : hedit) (src : e2e_case) (x : e2e_obs) : 
              if mem k (CE :: "Vary" :: "Content-Length" :: spec_hop_keys) then true
              else strs_eqb (h_values_exact k (x_headers x)) (edit_values ed k (h_values_exact k bh)))
           (keys bh ++ edit_keys ed)%list &&
-  match (if a_on rs && nonempty (a_body rs) then Some (a_body rs) else decode f bh (e_resp_body src)) with
-  | Some want => opt_eqb String.eqb (x_dec x) (Some want)
+  (* content: after undoing the codings the DELIVERED label names, the same data and the same
+     codings are left as after undoing those the backend's label named (unknown codings pass
+     through with their label) - or the adaptor's body *)
+  match (if a_on rs && nonempty (a_body rs) then Some ([], a_body rs) else e_resp_peel src) with
+  | Some (rest, want) => opt_eqb String.eqb (x_dec x) (Some want) && strs_eqb (x_rest x) rest
   | None => true
   end &&
   x_frame x.
 
 Definition request_ok (c : e2e_case) : bool :=
-  match e_client c, decode (case_fns c) (mk_headers (e_hdrs c)) (e_body c) with
+  match e_client c, e_req_peel c with
   | Some _, Some _ => true
   | _, _ => false
   end.
@@ -232,14 +268,16 @@ Definition prop_e2e (c : e2e_case) (x : e2e_obs) : bool :=
 Definition flag (q : quirks) (i : N) : bool :=
   match i with
   | 1%N => q_compress_keeps_length q | 2%N => q_adaptor_body_keeps_length q
-  | 3%N => q_proxy_decoded_path q | 4%N => q_stream_compress_panics q | _ => false
+  | 3%N => q_proxy_decoded_path q | 4%N => q_stream_compress_panics q
+  | 5%N => q_compress_replaces_label q | _ => false
   end.
 Definition clear (q : quirks) (i : N) : quirks :=
   {| q_compress_keeps_length := if (i =? 1)%N then false else q_compress_keeps_length q;
      q_adaptor_body_keeps_length := if (i =? 2)%N then false else q_adaptor_body_keeps_length q;
      q_proxy_decoded_path := if (i =? 3)%N then false else q_proxy_decoded_path q;
-     q_stream_compress_panics := if (i =? 4)%N then false else q_stream_compress_panics q |}.
-Definition flags : list N := [1; 2; 3; 4]%N.
+     q_stream_compress_panics := if (i =? 4)%N then false else q_stream_compress_panics q;
+     q_compress_replaces_label := if (i =? 5)%N then false else q_compress_replaces_label q |}.
+Definition flags : list N := [1; 2; 3; 4; 5]%N.
 
 Definition obs_eqb (c : e2e_case) (a b : e2e_obs) : bool := corr_e2e a b && corr_e2e b a.
 
@@ -350,7 +388,8 @@ Fixpoint with_obs (steps : list e2e_case) (outs : list outcome) : list e2e_case 
   | c :: t, o :: t' =>
       {| e_cfg := e_cfg c; e_method := e_method c; e_target := e_target c; e_host := e_host c; e_hdrs := e_hdrs c;
          e_body := e_body c; e_resp_status := e_resp_status c; e_resp_hdrs := e_resp_hdrs c; e_resp_enc := e_resp_enc c;
-         e_resp_body := e_resp_body c; e_gzip := e_gzip c; e_gunzip := e_gunzip c; e_client := e_client c; e_esc := e_esc c;
+         e_resp_body := e_resp_body c; e_gzip := e_gzip c; e_gunzip := e_gunzip c; e_inflate := e_inflate c;
+         e_req_peel := e_req_peel c; e_resp_peel := e_resp_peel c; e_client := e_client c; e_esc := e_esc c;
          e_out_dec := e_out_dec c; e_out_esc := e_out_esc c; e_parse := e_parse c; e_canon := e_canon c; e_bad := e_bad c;
          e_obs := obs_of_outcome c o |} :: with_obs t t'
   | _, _ => []
